@@ -15,7 +15,7 @@ from .. import cover, emmon, gen, ref
 LEVEL = 'exploration'
 JOBS = {'quick': 4, 'thorough': 16}
 REQUIRED_MONITORS = ('result_vs_fresh_map', 'shadow_comparison', 'rejection')
-REQUIRED_CLASSES = ('reference:exactly-collinear-anchors', 'reject:other-residue-boundaries', 'mutate-construction:renumber', 'op:call', 'op:call-repeat', 'op:reject', 'op:mutate-ref', 'op:mutate-target', 'op:mutate-result',
+REQUIRED_CLASSES = ('call:through-a-copy-of-the-map', 'poke:edit-equivalences', 'poke:reassign-scale', 'reference:exactly-collinear-anchors', 'reject:other-residue-boundaries', 'mutate-construction:renumber', 'op:call', 'op:call-repeat', 'op:reject', 'op:mutate-ref', 'op:mutate-target', 'op:mutate-result',
                     'op:mutate-argument', 'multi-residue', 'shipped-pair', 'reject:other-atom-names', 'reject:non-molecule',
                     'call-after-reject', 'call-after-mutation', 'mutate-argument:partial', 'mutate-argument:rotate-about-own-atom',
                     'reject:same-foreign-object-again')
@@ -236,8 +236,8 @@ def run_case(ctx, case):
                 ctx.violation('construction-table-changed', f'projection table / anchor assignment changed by {after}', witness={'history': history})
 
     for step in range(nops):
-        op = ['call', 'reject', 'mutate-ref', 'mutate-target', 'mutate-result', 'mutate-argument'][
-            int(rng.choice(6, p=[.45, .15, .1, .1, .1, .1]))]
+        op = ['call', 'reject', 'mutate-ref', 'mutate-target', 'mutate-result', 'mutate-argument', 'poke-map'][
+            int(rng.choice(7, p=[.4, .15, .1, .1, .1, .1, .05]))]
         if op == 'mutate-result' and not results:
             op = 'call'
         if op == 'call':
@@ -248,8 +248,23 @@ def run_case(ctx, case):
             history.append(('call', k))
             ctx.hit('op:call-repeat' if k in used_args else 'op:call')
             used_args.add(k)
+            caller = emap
+            how_called = int(rng.integers(0, 8))
+            if how_called == 0:
+                import copy
+                caller = copy.copy(emap)                 # a shallow copy of the map object answers like the map
+                ctx.hit('call:through-a-copy-of-the-map')
+            elif how_called == 1:
+                import copy
+                import pickle
+                try:
+                    caller = copy.deepcopy(emap) if rng.random() < 0.5 else pickle.loads(pickle.dumps(emap))
+                    ctx.hit('call:through-a-deep-copy-of-the-map')
+                except Exception:  # noqa  (the library's objects do not support deep copies / pickling at this commit)
+                    ctx.count('deep_copy_of_map_not_supported')
+                    caller = emap
             try:
-                out = emap(arg)
+                out = caller(arg)
             except Exception as exc:  # noqa
                 ctx.violation(f'call-raises:{type(exc).__name__}', f'{exc} after {history[-6:]}', witness={'history': history})
                 break
@@ -316,6 +331,28 @@ def run_case(ctx, case):
                 mol.move_to(rng.normal(size=3) * 10)
             shadows['ref' if op == 'mutate-ref' else 'tgt'] = snap(mol)
             pending.add(op)
+        elif op == 'poke-map':
+            # what the map hands out about itself is edited by the caller, and public attributes are re-assigned with the
+            # value they already have: neither may change what the map returns
+            how = ['edit-equivalences', 'reassign-scale'][int(rng.integers(0, 2))]
+            history.append((op, how))
+            ctx.hit('poke:' + how)
+            try:
+                if how == 'edit-equivalences':
+                    eq = emap.equivalences
+                    for key in list(eq)[:3]:
+                        v = eq[key]
+                        if isinstance(v, list):
+                            del v[:]
+                        elif isinstance(v, set):
+                            v.clear()
+                    if isinstance(eq, dict) and eq:
+                        eq.pop(next(iter(eq)))
+                else:
+                    emap.scale_factor = emap.scale_factor
+            except Exception as exc:  # noqa
+                ctx.count('poke_not_possible:' + type(exc).__name__)
+            pending.add('poke')
         elif op == 'mutate-result':
             k = int(rng.integers(0, len(results)))
             history.append((op, k))
